@@ -99,6 +99,14 @@ func VerifC02OnUpdate() {
 		peers = append(peers, store.Node{ID: ids[i], IsHost: peerIsHost[i], LastSeen: last})
 		count[cellOf[i]]++
 	}
+	billed := npeers
+	if verifapi.Bool("lists-itself") {
+		// a node may list its own id among its peers (the stores then track it as its own active peer):
+		// it is debited and credited for that entry like for any other
+		peers = append(peers, store.Node{ID: ids[0], IsHost: isHost, LastSeen: last})
+		count[cellOf[0]]++
+		billed++
+	}
 	node := store.Node{ID: ids[0], IsHost: isHost, LastSeen: last}
 	credit := b.intervalCredit(last)
 	bal, err := b.OnUpdate(node, peers)
@@ -107,8 +115,8 @@ func VerifC02OnUpdate() {
 		verifapi.Unreachable("c02.onupdate-no-error-without-minimum")
 		return
 	}
-	total := new(big.Int).Mul(credit, big.NewInt(int64(npeers)))
-	moved := !isHost && credit.Sign() != 0 && npeers > 0
+	total := new(big.Int).Mul(credit, big.NewInt(int64(billed)))
+	moved := !isHost && credit.Sign() != 0 && billed > 0
 	seen := map[string]bool{}
 	for i := 0; i <= npeers; i++ {
 		c := cellOf[i]
